@@ -5,6 +5,7 @@
 //! them. Nothing here changes behaviour; without the feature this module is
 //! not compiled. One file per area.
 
+pub mod bgp;
 pub mod ingress;
 pub mod bmp;
 pub mod rib;
